@@ -11,6 +11,7 @@ package broker
 import (
 	"context"
 	"encoding/binary"
+	"encoding/hex"
 	"errors"
 	"fmt"
 	"io"
@@ -248,7 +249,7 @@ func TestVerifC10Server(t *testing.T) {
 	}
 	all := verifkreq.Corpus(r.Rand(0), verifkreq.CorpusSizes{Thorough: r.Thorough()})
 	// sample: keep the list a pure function of the seed; tag sections go last
-	keep := r.N(700, 30000)
+	keep := r.N(500, 30000)
 	rng := r.Rand(1)
 	var first, tags []verifkreq.Input
 	for _, in := range all {
@@ -270,6 +271,16 @@ func TestVerifC10Server(t *testing.T) {
 		tags = tags[:keep/5]
 	}
 	corpus := append(first, tags...)
+	replaying := false
+	if rp := verifkit.Replay(); rp != nil && rp["leg"] == "server" { // bin/check C10 --replay <witness>: only that client stream
+		if w, ok := rp["replay"].(map[string]any); ok {
+			if b, err := hex.DecodeString(fmt.Sprint(w["input_hex"])); err == nil && len(b) > 0 {
+				in := verifkreq.Input{Kind: "replay", Bytes: b}
+				fmt.Sscan(fmt.Sprint(w["chunk_seed"]), &in.Chunk)
+				corpus, replaying = []verifkreq.Input{in}, true
+			}
+		}
+	}
 
 	nChild := 0
 	start := func() *c10sChild {
@@ -351,7 +362,7 @@ func TestVerifC10Server(t *testing.T) {
 				class := c10sClass(corpus[j].Bytes, tr)
 				first := strings.SplitN(tr, "\n", 2)[0]
 				r.Violation(class, fmt.Sprintf("a %d-byte client stream (%s) kills the broker.Server process: %s", len(corpus[j].Bytes), corpus[j].Kind, first),
-					map[string]any{"input_hex": fmt.Sprintf("%x", corpus[j].Bytes), "kind": corpus[j].Kind, "chunk_seed": corpus[j].Chunk, "server_output": tr, "confirmed_alone_on_fresh_server": true})
+					map[string]any{"input_hex": fmt.Sprintf("%x", corpus[j].Bytes), "kind": corpus[j].Kind, "chunk_seed": fmt.Sprint(corpus[j].Chunk), "server_output": tr, "confirmed_alone_on_fresh_server": true})
 				blamed = true
 				break
 			}
@@ -367,5 +378,7 @@ func TestVerifC10Server(t *testing.T) {
 		r.Sample(map[string]any{"kind": corpus[0].Kind, "input_hex": fmt.Sprintf("%x", corpus[0].Bytes[:min(len(corpus[0].Bytes), 96)])})
 		r.Sample(map[string]any{"kind": corpus[len(corpus)-1].Kind, "input_hex": fmt.Sprintf("%x", corpus[len(corpus)-1].Bytes[:min(len(corpus[len(corpus)-1].Bytes), 96)])})
 	}
-	r.Floor("parser_ran", 250)
+	if !replaying {
+		r.Floor("parser_ran", 200)
+	}
 }
